@@ -1,6 +1,6 @@
 //go:build verif
 
-package rotation
+package protocol
 
 import (
 	"context"
@@ -10,6 +10,7 @@ import (
 
 	"github.com/hashicorp/nodeenrollment"
 	"github.com/hashicorp/nodeenrollment/registration"
+	"github.com/hashicorp/nodeenrollment/rotation"
 	nodetls "github.com/hashicorp/nodeenrollment/tls"
 	"github.com/hashicorp/nodeenrollment/types"
 	"github.com/hashicorp/nodeenrollment/zzverif/vf"
@@ -51,7 +52,7 @@ func verifC04Flow(flow int) {
 		nopts = append(nopts, nodeenrollment.WithStorageWrapper(vfC04Wrapper("node-storage", 6)))
 	}
 	withState := vf.Bool("application-state")
-	roots, err := RotateRootCertificates(ctx, st, sopts...)
+	roots, err := rotation.RotateRootCertificates(ctx, st, sopts...)
 	vfOK("rotate-roots", err)
 
 	var creds *types.NodeCredentials
@@ -96,7 +97,7 @@ func verifC04Flow(flow int) {
 			fopts = append(fopts, nodeenrollment.WithRegistrationWrapper(regWrapper))
 		} else {
 			// the intermediary: an honestly enrolled node that can open the wrapped info and re-seals it for the server
-			mid := vfEnroll(ctx, st, nil, sopts...)
+			mid := vfEnroll(ctx, st, sopts...)
 			info := new(types.FetchNodeCredentialsInfo)
 			vfOK("decode-bundle", proto.Unmarshal(req.Bundle, info))
 			flowInfo, derr := registration.DecryptWrappedRegistrationInfo(ctx, info, nodeenrollment.WithRegistrationWrapper(regWrapper))
@@ -152,6 +153,31 @@ func verifC04Flow(flow int) {
 		vf.Assert("client-config-has-a-certificate-callback", c.GetClientCertificate != nil)
 	}
 	vf.Reach("end")
+}
+
+var vfDeadline time.Time
+
+// vfOK: every honest step must succeed, provided the clock stayed inside the scenario budget.
+func vfOK(step string, err error) {
+	vf.Assume(vf.TimeLE(vf.Now(), vfDeadline))
+	vf.Assert("honest-step-succeeds:"+step, err == nil)
+	vf.Assume(err == nil)
+}
+
+// vfEnroll runs the library's own honest node-led enrollment end to end.
+func vfEnroll(ctx context.Context, server *vfs.Storage, sopts ...nodeenrollment.Option) *types.NodeCredentials {
+	nodeSt := &vfs.Storage{}
+	creds, err := types.NewNodeCredentials(ctx, nodeSt)
+	vfOK("new-node-credentials", err)
+	req, err := creds.CreateFetchNodeCredentialsRequest(ctx)
+	vfOK("create-fetch-request", err)
+	_, err = registration.AuthorizeNode(ctx, server, req, sopts...)
+	vfOK("authorize", err)
+	resp, err := registration.FetchNodeCredentials(ctx, server, req, sopts...)
+	vfOK("fetch", err)
+	_, err = creds.HandleFetchNodeCredentialsResponse(ctx, nodeSt, resp)
+	vfOK("handle-response", err)
+	return creds
 }
 
 func vfC04Wrapper(id string, k int) *vfWrapperT { return newVfWrapper(id, k) }
